@@ -1,6 +1,8 @@
 package main
 
 import (
+	"fmt"
+	"github.com/bartossh/Computantis/src/transaction"
 	"runtime"
 	"time"
 
@@ -98,4 +100,37 @@ func c05LedgerPart(rep *common.Report) {
 	rep.Set("ledger_part_wrap", map[string]any{"states": st2.States, "transitions": st2.Transitions, "depth_completed": st2.DepthDone,
 		"exhaustive_within_bound": st2.Exhaustive, "cap_hit": st2.CapHit, "results": st2.Results, "counters": st2.Counters})
 	rep.Assume("ledger part: explicit-state search over propose / deliver / crafted (untrusted and trusted sealer) / tick events with non-canonical amounts on two real nodes, depth as stated; events atomic")
+}
+
+// c05Predicates: the yes/no questions the ledger asks about an amount (is it nothing? does this transaction move
+// spice? is it empty?) over the whole boundary product. They gate every funds check, so a wrap-around in one of them
+// makes value appear or vanish as surely as one in the arithmetic.
+func c05Predicates(rep *common.Report) {
+	n := 0
+	for _, a := range valueSet(common.Tier()) {
+		for _, b := range valueSet(common.Tier()) {
+			m := spice.Melange{Currency: a.v, SupplementaryCurrency: b.v}
+			zero := a.v == 0 && b.v == 0
+			n++
+			if m.Empty() != zero {
+				rep.Add(common.Violation{Predicate: "C05.predicates", Key: "C05.predicate-wrong/Empty",
+					What:    fmt.Sprintf("Melange{%d, %d}.Empty() = %v", a.v, b.v, m.Empty()),
+					Witness: map[string]any{"currency": fmt.Sprint(a.v), "supplementary": fmt.Sprint(b.v)}})
+			}
+			for _, data := range [][]byte{nil, []byte("d")} {
+				t := transaction.Transaction{Spice: m, Data: data}
+				if t.IsSpiceTransfer() != !zero {
+					rep.Add(common.Violation{Predicate: "C05.predicates", Key: "C05.predicate-wrong/IsSpiceTransfer",
+						What:    fmt.Sprintf("a transaction carrying Melange{%d, %d} (data %d bytes): IsSpiceTransfer() = %v", a.v, b.v, len(data), t.IsSpiceTransfer()),
+						Witness: map[string]any{"currency": fmt.Sprint(a.v), "supplementary": fmt.Sprint(b.v)}})
+				}
+				if t.IsEmpty() != (zero && len(data) == 0) {
+					rep.Add(common.Violation{Predicate: "C05.predicates", Key: "C05.predicate-wrong/IsEmpty",
+						What:    fmt.Sprintf("a transaction carrying Melange{%d, %d} (data %d bytes): IsEmpty() = %v", a.v, b.v, len(data), t.IsEmpty()),
+						Witness: map[string]any{"currency": fmt.Sprint(a.v), "supplementary": fmt.Sprint(b.v)}})
+				}
+			}
+		}
+	}
+	rep.Set("predicate_pairs", n)
 }
